@@ -83,7 +83,13 @@ def b_strings(tier, rnd):
         for pos in range(len(x) + 1):
             for ch in "xB-1 ":
                 cases.append((x[:pos] + ch + x[pos:],))
-    return {"rule": "names as in 'names' (length <= %d, + long ones) + %d malformed strings + every single-character "
+    # every string up to length 4 (5 in the thorough tier) over a small alphabet: all orders of letters and accidentals
+    import itertools
+    for k in range(1, bound(tier, 4, 5) + 1):
+        for t in itertools.product("CGb#x-", repeat=k):
+            cases.append(("".join(t),))
+    return {"rule": "every string of length <= 4 (thorough: 5) over {C,G,b,#,x,-}; "
+                    "names as in 'names' (length <= %d, + long ones) + %d malformed strings + every single-character "
                     "insertion of x/B/-/1/space into names of <= 3 accidentals + names of <= 2 accidentals followed or "
                     "preceded by newline/space/tab/NUL/non-ASCII/extra letters" % (n, len(GARBAGE)),
             "exhaustive_upto": n, "cases": cases}
@@ -1184,3 +1190,16 @@ def b_event_files(tier, rnd):
             cases.append((_mfile(), GhostFile(f)))
     return {"rule": "every status byte 0x70..0xff x 5 tails; meta events of 6 kinds x 9 data lengths (1- to 3-byte length "
                     "fields), file positioned at offset 1", "cases": cases}
+
+
+@battery("numeral_strings")
+def b_numeral_strings(tier, rnd):
+    import itertools
+    cases = [("",)]
+    for k in range(1, bound(tier, 5, 6) + 1):
+        for t in itertools.product("#bIvVm7", repeat=k):
+            cases.append(("".join(t),))
+    for s in ("I", "bIM7", "#ivdim7", "VIIdim", "bbIII7", "Idom7", "viio", "b#bVx#I", "im", "##", "7", "Vsus4", "vi7b5"):
+        cases.append((s,))
+    return {"rule": "every string of length <= 5 (thorough: 6) over {#,b,I,v,V,m,7} + documented numerals",
+            "exhaustive_upto": 5, "cases": cases}
